@@ -15,6 +15,7 @@ import weakref
 import numpy as np
 
 from .. import gen, ref
+from . import _c02_layouts as lay
 
 ID = "C01"
 LEVEL = "exploration"
@@ -27,7 +28,7 @@ EPS = ref.EPS
 
 RULE = (
     "cases = seeded clouds of 1..400 pairwise-distinct points (uniform, jittered grid, clusters, anisotropic box, "
-    "collinear-plus-one; 1-D and 2-D C/F-ordered shapes; coordinate scales 1e-2..1e6, offsets 0..1e3 extents; data "
+    "collinear-plus-one; logical shapes 1-D or non-square 2-D with each coordinate and each data component in an independently chosen memory layout / container - C, Fortran, transposed view, strided, negative strides, read-only, pandas Series; coordinate scales 1e-2..1e6, offsets 0..1e3 extents; data "
     "magnitudes 1e-3..1e6) fitted by every exact configuration (Spline with mindist None/small, VectorSpline2D with Poisson "
     "in [-1,1] and mindist>0, KNeighbors() / k=1 with mean/median/max, Linear/Cubic with rescale on/off, ScipyGridder "
     "linear/nearest/cubic, Chains [Trend(0..2), exact], nested Chains, Vectors of exact gridders and of Chains, vector Chains "
@@ -50,8 +51,8 @@ ASSUMPTIONS = [
     "the fitted points are pairwise distinct (cases with duplicates are skipped, the statement quantifies over distinct points)",
 ]
 FLOORS = {
-    "quick": {'eval:spline_exact': 330, 'eval:vspline_exact': 70, 'eval:knn_exact': 235, 'eval:scipy_exact': 430, 'eval:chain_exact': 170, 'eval:vector_exact': 36, 'eval:trend_reproduction': 550, 'informative_kappa_ge_1e6:spline': 75, 'informative_kappa_ge_1e6:trend': 115, 'distinct_nontrivial': 1350},
-    "thorough": {'eval:spline_exact': 6600, 'eval:vspline_exact': 1400, 'eval:knn_exact': 4700, 'eval:scipy_exact': 8600, 'eval:chain_exact': 3400, 'eval:vector_exact': 720, 'eval:trend_reproduction': 11000, 'informative_kappa_ge_1e6:spline': 1500, 'informative_kappa_ge_1e6:trend': 2300, 'distinct_nontrivial': 27000},
+    "quick": {'eval:spline_exact': 330, 'eval:vspline_exact': 70, 'eval:knn_exact': 235, 'eval:scipy_exact': 430, 'eval:chain_exact': 170, 'eval:vector_exact': 36, 'eval:trend_reproduction': 550, 'informative_kappa_ge_1e6:spline': 75, 'informative_kappa_ge_1e6:trend': 115, 'distinct_nontrivial': 1350, 'layout:coordinates:2d_fortran': 150, 'layout:coordinates:2d_transposed_view': 140, 'layout:coordinates:2d_strided': 150, 'layout:coordinates:1d_series': 250, 'layout:data:2d_fortran': 70, 'layout:data:2d_transposed_view': 80, 'layout:data:2d_strided': 80, 'layout:data:2d_negative_stride': 80, 'layout:data:1d_series': 140, 'layout:data_laid_out_differently_from_coordinates': 800},
+    "thorough": {'eval:spline_exact': 6600, 'eval:vspline_exact': 1400, 'eval:knn_exact': 4700, 'eval:scipy_exact': 8600, 'eval:chain_exact': 3400, 'eval:vector_exact': 720, 'eval:trend_reproduction': 11000, 'informative_kappa_ge_1e6:spline': 1500, 'informative_kappa_ge_1e6:trend': 2300, 'distinct_nontrivial': 27000, 'layout:coordinates:2d_fortran': 3000, 'layout:coordinates:2d_transposed_view': 2800, 'layout:coordinates:2d_strided': 3000, 'layout:coordinates:1d_series': 5000, 'layout:data:2d_fortran': 1400, 'layout:data:2d_transposed_view': 1600, 'layout:data:2d_strided': 1600, 'layout:data:2d_negative_stride': 1600, 'layout:data:1d_series': 2800, 'layout:data_laid_out_differently_from_coordinates': 16000},
 }
 JOBS = {"quick": 1, "thorough": 16}
 CASE_TIMEOUT_S = 300
@@ -718,19 +719,35 @@ def _cloud(rng, n, collinear_ok=True):
     raise RuntimeError("could not generate distinct points")
 
 
+class _Layout(str):
+    """'1d' / '2d' plus the per-argument layout classes (first two arguments are the coordinates, the rest data components)."""
+    classes = ()
+
+
 def _shape(rng, arrays):
-    """Present equal-size 1-D arrays as 1-D, 2-D C-ordered or 2-D Fortran-ordered arrays with the same element sequence."""
-    size = arrays[0].size
-    mode = rng.random()
-    if mode < 0.45 or size < 4:
-        return "1d", tuple(a.copy() for a in arrays)
-    divisors = [r for r in range(2, size) if size % r == 0 and r != size // r]
-    if not divisors:
-        return "1d", tuple(a.copy() for a in arrays)
-    rows = int(rng.choice(divisors))
-    if mode < 0.8:
-        return "2d", tuple(a.reshape(rows, size // rows).copy() for a in arrays)
-    return "2d_fortran", tuple(np.asfortranarray(a.reshape(rows, size // rows)) for a in arrays)
+    """
+    Present equal-size 1-D arrays over one logical shape (1-D or a non-square 2-D grid), each argument in an independently chosen memory layout /
+    container (C, Fortran, transposed view, strided, negative strides, read-only, pandas Series): the C-order element sequence never changes.
+    """
+    shape = lay.logical_shape(rng, arrays[0].size, p_2d=0.55)
+    out, classes = [], []
+    for a in arrays:
+        name, arr = lay.present(rng, a, shape)
+        out.append(arr)
+        classes.append(lay.layout_class(name, shape))
+    layout = _Layout("%dd" % len(shape))
+    layout.classes = tuple(classes)
+    return layout, tuple(out)
+
+
+def _count_layouts(run, layout):
+    run.count("layout:logical_" + str(layout))
+    for k, cls in enumerate(layout.classes):
+        run.count("layout:%s:%s" % ("coordinates" if k < 2 else "data", cls))
+    if len(set(layout.classes)) > 1:
+        run.count("layout:arguments_in_different_layouts")
+    if set(layout.classes[2:]) - set(layout.classes[:2]):
+        run.count("layout:data_laid_out_differently_from_coordinates")
 
 
 def _composite_size(rng, lo, hi, **kwargs):
@@ -747,7 +764,7 @@ def _fit_predict(est, coords, data, rng, run, weights=None, overwrite=()):
     "data") are overwritten between fit and predict and the prediction is requested at saved copies: the fitted state that the
     documentation describes as copied (force_coords_ of the splines, tree_/data_ of KNeighbors) must not alias them.
     """
-    saved = tuple(np.array(c, copy=True, order="K") for c in coords)
+    saved = tuple(np.array(np.asarray(c), copy=True, order="K") for c in coords)
     with warnings.catch_warnings():
         warnings.simplefilter("ignore")
         if weights is None:
@@ -758,10 +775,12 @@ def _fit_predict(est, coords, data, rng, run, weights=None, overwrite=()):
             run.count("caller_arrays_overwritten_after_fit")
             if "coordinates" in overwrite:
                 for c in coords:
-                    c += 0.37 * (np.ptp(c) or 1.0)
+                    if isinstance(c, np.ndarray) and c.flags.writeable:
+                        c += 0.37 * (np.ptp(c) or 1.0)
             if "data" in overwrite:
                 for d in data if isinstance(data, tuple) else (data,):
-                    d[...] = 1e3 + 2 * d
+                    if isinstance(d, np.ndarray) and d.flags.writeable:
+                        d[...] = 1e3 + 2 * d
         return est.predict(saved)
 
 
@@ -786,14 +805,14 @@ def run_case(run, tap, stream, index, rng):
         layout, (e, nn, d) = _shape(rng, (east, north, data))
         weights = None
         if rng.random() < 0.1:
-            weights = gen.log_uniform(rng, 1e-1, 10.0) * 10 ** rng.uniform(-1, 1, d.shape)
+            weights = lay.present(rng, gen.log_uniform(rng, 1e-1, 10.0) * 10 ** rng.uniform(-1, 1, n), np.shape(d))[1]
         with warnings.catch_warnings():
             warnings.simplefilter("ignore")
             est = verde.Spline(mindist=mindist) if mindist is not None else verde.Spline()
         pred = _fit_predict(est, (e, nn), d, rng, run, weights, overwrite=("coordinates", "data"))
-        run.count("layout:" + layout)
+        _count_layouts(run, layout)
         run.count("cloud:" + kind)
-        run.sample("spline", {"n": n, "cloud": kind, "layout": layout, "mindist": mindist, "easting": east, "northing": north, "data": data,
+        run.sample("spline", {"n": n, "cloud": kind, "layout": list(layout.classes), "mindist": mindist, "easting": east, "northing": north, "data": data,
                               "prediction_at_the_data": np.asarray(pred), "kappa": (_lookup(est).info or {}).get("kappa")})
     elif stream == "vspline":
         n = _composite_size(rng, 2, 200, big_lo=60)
@@ -806,7 +825,7 @@ def run_case(run, tap, stream, index, rng):
         layout, (e, nn, de, dn) = _shape(rng, (east, north, d_east, d_north))
         est = verde.VectorSpline2D(poisson=poisson, mindist=mindist)
         pred = _fit_predict(est, (e, nn), (de, dn), rng, run, overwrite=("coordinates", "data"))
-        run.count("layout:" + layout)
+        _count_layouts(run, layout)
         if index % 7 == 3:  # a refit keeps the first force locations: no longer in the exact class, must be classified so
             e2, n2, _ = _cloud(rng, n)
             with warnings.catch_warnings():
@@ -828,7 +847,7 @@ def run_case(run, tap, stream, index, rng):
             else:
                 est = verde.KNeighbors(k=1, reduction=[np.mean, np.median, np.max][choice - 1])
             pred = _fit_predict(est, (e, nn), d, rng, run, overwrite=("coordinates", "data"))
-            run.count("layout:" + layout)
+            _count_layouts(run, layout)
         run.sample("knn", {"n": n, "easting": east, "northing": north, "data": data, "prediction_at_the_data": np.asarray(pred)})
     elif stream == "scipy":
         for _ in range(4):
@@ -852,7 +871,7 @@ def run_case(run, tap, stream, index, rng):
             except scipy.spatial.QhullError:
                 run.count("refused:qhull")  # degenerate (collinear / too few points): the backend's documented refusal
                 continue
-            run.count("layout:" + layout)
+            _count_layouts(run, layout)
             run.count("scipy:" + _describe(est))
         run.sample("scipy", {"estimator": _describe(est), "n": n, "easting": east, "northing": north, "data": data})
     elif stream == "chain":
@@ -879,7 +898,7 @@ def run_case(run, tap, stream, index, rng):
         except scipy.spatial.QhullError:
             run.count("refused:qhull")
             return
-        run.count("layout:" + layout)
+        _count_layouts(run, layout)
         run.sample("chain", {"estimator": _describe(est), "n": n, "easting": east, "northing": north, "data": data, "prediction_at_the_data": np.asarray(pred)})
     elif stream == "vector":
         n = _composite_size(rng, 4, 200, big_share=0.2, big_lo=80)
@@ -909,7 +928,7 @@ def run_case(run, tap, stream, index, rng):
         except scipy.spatial.QhullError:
             run.count("refused:qhull")
             return
-        run.count("layout:" + layout)
+        _count_layouts(run, layout)
         run.sample("vector", {"estimator": _describe(est), "n": n, "easting": east, "northing": north, "data": list(comps)[:len(data)],
                               "prediction_at_the_data": [np.asarray(p) for p in pred]})
     elif stream == "trend_poly":
@@ -941,7 +960,7 @@ def run_case(run, tap, stream, index, rng):
                 if rng.random() < 0.3:  # a few points beyond twice the box: not judged, counted
                     qe[:3] += 3 * (we or 1.0)
                 pred = est.predict((qe.reshape(5, 6), qn.reshape(5, 6)))
-            run.count("layout:" + layout)
+            _count_layouts(run, layout)
         run.sample("trend_poly", {"degree": degree, "polynomial_degree": deg_p, "coefficients": coefs, "n": n, "easting": east, "northing": north,
                                   "data": data, "query_easting": qe, "query_northing": qn, "prediction": np.asarray(pred),
                                   "kappa_V": (_lookup(est).info or {}).get("kappa")})
